@@ -64,7 +64,7 @@ class SubCheck(object):
     """
 
     def __init__(self, name, check, strategy=None, enumerate=None, budget=None, timeout=None, exhaustive=None,
-                 render=None, max_shards=16):
+                 render=None, max_shards=16, exhaustive_tiers=("quick", "thorough")):
         self.name = name
         self.check = check
         self.strategy = strategy
@@ -74,6 +74,8 @@ class SubCheck(object):
         self.exhaustive = exhaustive
         self.render = render
         self.max_shards = max_shards
+        # tiers in which `enumerate` covers the whole finite space described by `exhaustive` (elsewhere it is a sample)
+        self.exhaustive_tiers = tuple(exhaustive_tiers)
 
 
 def case_hash(case):
